@@ -5,6 +5,8 @@ use crate::core::Check;
 pub mod delta;
 pub mod history;
 pub mod jsondelta;
+pub mod rtrsrv;
+pub mod sched;
 pub mod server;
 pub mod validity;
 
@@ -18,7 +20,11 @@ pub fn all() -> Vec<&'static Check> {
         &server::C16,
         &server::C17,
         &jsondelta::C18,
+        &rtrsrv::C19,
         &validity::C20,
+        &sched::C33,
+        &sched::C34,
+        &rtrsrv::C36,
     ]
 }
 
